@@ -23,7 +23,11 @@ SCRIPTS = {
     "erroring": "a = 1;\n1 + \"x\";\nb = 2;",
     "error-in-call": "a = call {1;\n [] select 3;\n 2};\nb = 2;",
 }
-MT_SCRIPTS = {"ok": ("a = 1;", 3, 0), "err": ('1 + "x";', 3, 3), "long": (" ".join("a = %d;" % i for i in range(12)), 6, 0)}
+MT_SCRIPTS = {"ok": ("a = 1;", 3, 0), "err": ('1 + "x";', 3, 3), "long": (" ".join("a = %d;" % i for i in range(12)), 6, 0),
+              # a loop without instructions in its body: it ends by a stop/abort only (a 1.5 s time limit is the safety net)
+              "emptyloop": ('for "_i" from 0 to 1 step 0 do {};', 3, 0)}
+MT_LIMIT = {"emptyloop": 3000}
+MT_LAG_MS = 1500       # an executor that is still running this long after the request flag was written did not take it up
 
 
 def mc_cfg(name, ideal, err, calls_e="any", calls_c="any", observed=None, work=3, collect=False):
@@ -131,17 +135,19 @@ def run(rep, tier, seed, replay):
         for sname, (text, work, err) in MT_SCRIPTS.items():
             for ce in ce_all:
                 for cc in cc_all:
+                    if sname in MT_LIMIT and (ce != ["start"] or cc not in (["stop"], ["abort"])):
+                        continue        # (each case there may last until the time limit)
                     scheds = set()
                     # systematic: controller's steps inserted at every position of the executor's run
                     for pos in range(0, 14):
                         for burst in (1, 2, 3, 4):
                             scheds.add(tuple(["E"] * pos + ["C"] * burst + ["E"] * 3 + ["C"] * 6))
-                    while len(scheds) < nsched:
+                    while len(scheds) < nsched and sname not in MT_LIMIT:
                         scheds.add(tuple(rng.choice("EC") for _ in range(rng.randint(6, 22))))
                     for s in sorted(scheds):
                         n += 1
                         mt_cases.append({"id": "m%d" % n, "script": sname, "text": text, "work": work, "err": err, "E": ce, "C": cc, "schedule": list(s)})
-    mev = vlib.run_driver("ctlmt", [{k: c[k] for k in ("id", "text", "E", "C", "schedule")} for c in mt_cases], wdir, kind="rel", timeout_s=10, tag="mt")
+    mev = vlib.run_driver("ctlmt", [dict({k: c[k] for k in ("id", "text", "E", "C", "schedule")}, limit_ms=MT_LIMIT.get(c["script"], 0)) for c in mt_cases], wdir, kind="rel", timeout_s=10, tag="mt")
     mby = vlib.events_by_case(mev)
     # outcome per case, grouped per configuration
     configs = {}
@@ -157,7 +163,10 @@ def run(rep, tier, seed, replay):
         out = {"e": [e["res"] for e in evs if e["e"] == "Ret" and e["t"] == "E"], "c": [e["res"] for e in crets],
                "state": fin["state"], "loaded": fin["nctx"] > 0,
                # instructions completed after the first acknowledged stop/abort returned (capped: the bound is what matters)
-               "after": min(5, fin["instr"] - grant["instr"]) if grant else 0}
+               # (a run that only the time limit ended although a stop/abort was acknowledged counts as "kept executing")
+               # (a loop without instructions never advances the instruction count: there the time the executor went on
+               #  after the controller had finished writing its request decides)
+               "after": (5 if fin.get("lag_ms", -1) > MT_LAG_MS else min(5, fin["instr"] - grant["instr"])) if grant else 0}
         key = (c["script"], tuple(c["E"]), tuple(c["C"]))
         configs.setdefault(key, {}).setdefault(json.dumps(out, sort_keys=True), []).append(c)
     rep.traces += len(mt_cases)
